@@ -15,7 +15,7 @@ tvars == <<cvars, l, corr, expect>>
 R == Rec[l]
 IsEv(e) == l <= Len(Rec) /\ R.ev = e /\ l' = l + 1
 
-RealItemTags == {"hdr", "clause", "lit", "latch", "and", "size", "sym", "line"}
+RealItemTags == {"hdr", "clause", "lit", "latch", "and", "size", "sym", "node", "cline"}
 \* returns of the harness' API walk that hand out nothing: a section transition, the absence of an
 \* (optional) header or comment.  The absence of a header is not an item of C04's identity clause: with a
 \* failing source Parser::new legitimately finds no header and the error surfaces at the next call.
